@@ -67,7 +67,40 @@ func main() {
 	matrix := flag.String("matrix", "", "apply a unified diff as an overlay and print, per property, the obligations that do not discharge")
 	genManifest := flag.Bool("genmanifest", false, "write MANIFEST.json from the registered rules")
 	dump := flag.String("dump", "", "debug: dump SSA of pkg:func (e.g. nsqd:(*Topic).put)")
+	genBaseline := flag.Bool("genbaseline", false, "write baseline_funcs.txt (the functions of the current tree) into the verification root")
+	showNorm := flag.String("shownorm", "", "debug: apply a patch/mutant as overlay, normalise, and print the normalised files")
 	flag.Parse()
+	if *genBaseline {
+		set := map[string]bool{}
+		for _, cfg := range [][2]string{{"linux", "amd64"}, {"linux", "386"}, {"windows", "amd64"}, {"illumos", "amd64"}} {
+			p, err := an.Load(*repo, cfg[0], cfg[1], nil)
+			if err != nil {
+				fmt.Fprintln(os.Stderr, err)
+				os.Exit(2)
+			}
+			for _, k := range an.BaselineKeys(p.Roots) {
+				set[k] = true
+			}
+		}
+		var keys []string
+		for k := range set {
+			keys = append(keys, k)
+		}
+		sort.Strings(keys)
+		hdr := "# functions declared in non-test files of the pinned tree (union over linux/amd64, linux/386, windows/amd64, illumos/amd64)\n# a function NOT listed here is treated as an extracted helper and inlined before analysis (tool/an/normalize.go)\n"
+		os.WriteFile(filepath.Join(*verif, "baseline_funcs.txt"), []byte(hdr+strings.Join(keys, "\n")+"\n"), 0o644)
+		fmt.Println(len(keys), "functions")
+		return
+	}
+	if err := an.LoadBaseline(filepath.Join(*verif, "baseline_funcs.txt")); err != nil {
+		fmt.Fprintln(os.Stderr, "warning: no baseline_funcs.txt, helper inlining disabled:", err)
+	}
+	if os.Getenv("VERIF_NORMLOG") != "" {
+		an.NormalizeLog = func(s string) { fmt.Fprintln(os.Stderr, "normalize:", s) }
+	}
+	if *showNorm != "" {
+		os.Exit(runShowNorm(*showNorm, *repo, *verif))
+	}
 	if *dump != "" {
 		p, err := an.Load(*repo, *goos, *goarch, nil)
 		if err != nil {
@@ -512,6 +545,41 @@ func mutantOverlay(m mutant, repo, verif string) (overlay map[string][]byte, sta
 		overlay[abs] = []byte(strings.Replace(string(src), e.Find, e.Replace, 1))
 	}
 	return overlay, "", ""
+}
+
+// runShowNorm prints the normalised source of a patched tree.
+func runShowNorm(patch, repo, verif string) int {
+	pb, err := os.ReadFile(patch)
+	if err != nil {
+		fmt.Fprintln(os.Stderr, err)
+		return 2
+	}
+	var overlay map[string][]byte
+	if strings.HasSuffix(patch, ".json") {
+		var m mutant
+		json.Unmarshal(pb, &m)
+		overlay, _, _ = mutantOverlay(m, repo, verif)
+	} else {
+		overlay, err = applyUnifiedDiff(repo, string(pb))
+		if err != nil {
+			fmt.Fprintln(os.Stderr, err)
+			return 2
+		}
+	}
+	an.NormalizeLog = func(s string) { fmt.Fprintln(os.Stderr, "normalize:", s) }
+	p, err := an.Load(repo, "linux", "amd64", overlay)
+	if err != nil {
+		fmt.Fprintln(os.Stderr, err)
+		return 2
+	}
+	fmt.Fprintln(os.Stderr, "rounds:", p.Normalized)
+	for f, src := range p.Overlay {
+		if _, was := overlay[f]; was && string(overlay[f]) == string(src) {
+			continue
+		}
+		fmt.Printf("==== %s\n%s\n", f, src)
+	}
+	return 0
 }
 
 // runMatrix evaluates every property on /repo + patch (overlay) and prints {property: [keys]}.
